@@ -401,12 +401,13 @@ where
         for x in self.iter_mut().skip(len) {
             unsafe { ptr::drop_in_place(x as *mut T) };
         }
-        if len == 0 {
-            L::zero().emplace(&mut self.data).unwrap();
-        } else {
-            let mut iter = self.bytes_mut_iter();
+        // Step over the first `len` items; if the chain goes on, terminate it in the slot of item `len`.
+        let mut iter = self.bytes_mut_iter();
+        if len > 0 {
             let _ = iter.nth(len - 1);
-            L::max_value().emplace(iter.data.unwrap()).unwrap();
+        }
+        if let Some(slot) = iter.data {
+            L::zero().emplace(slot).unwrap();
         }
     }
 }
